@@ -2,12 +2,38 @@ SPEC = dict(
     id="C09",
     bin="c09",
     coq_dir="C09",
-    coq_targets=["C09/Proofs.vo", "C09/Examples.vo"],
+    coq_targets=["C09/Proofs.vo", "C09/Proofs2.vo", "C09/Examples.vo"],
     allowed_axioms=[],
-    level_text="(filled in below)",
-    level_note="(filled in below)",
-    technique="Coq proof (induction over the writer/reader state machines, lia, exhaustive byte sweeps) over a hand-written Gallina model + vm_compute correspondence with write-fonts/read-fonts; implementation-only oracle incl. skrifa drawing",
-    modelled=[],
-    not_covered=[],
-    assumptions=[],
+    level_text=("Unbounded Coq theorems (no axioms) about an executable model of the glyf/loca writer (write-fonts "
+                "SimpleGlyph/CompositeGlyph/GlyfLocaBuilder/Loca) and reader (read-fonts Glyph::read, SimpleGlyph::points, "
+                "ComponentIter, Loca::get_raw/get_glyf): the flag run-length encoder round-trips for EVERY flag list (any run "
+                "length, incl. > 256) and writes a run of k flags in 2*(k/256)+min(2,k mod 256) bytes; every coordinate "
+                "sequence over the full i16 range whose successive deltas fit i16 is accepted and decodes back, each delta in "
+                "the shortest form that represents it; an accepted simple glyph (<= 65535 points) reads back with the same "
+                "contour count, bbox, end points, instructions, points and on-curve flags, and even length; LocaFormat short "
+                "=> all offsets even, <= 0x1FFFE and exact under (off>>1) as u16; both loca formats return the offsets "
+                "written; glyph i of the builder's (glyf, loca) is the i-th added glyph's own encoding, empty glyphs get equal "
+                "offsets. The model is tied to the code on every run: ~3.8k boundary-rich cases (simple and composite glyphs, "
+                "mutated byte strings, Loca::new offsets around 0x1FFFE/0x20000, builder sequences incl. totals 0x1FFFC..0x20004) "
+                "are run through the real write-fonts/read-fonts code and through the model with vm_compute, byte-exact. "
+                "Composite round trip, the write-fonts BezPath front end and unscaled skrifa drawing are checked on the "
+                "implementation only (oracle), not proved — partial for those clauses."),
+    level_note=("Trusted: Coq kernel; the hand-written model coq/C09/Model.v (its agreement with write-fonts/read-fonts is "
+                "checked case by case, not proved); the harness generators. The composite writer/reader is modelled and "
+                "corresponds on every case but has no Coq round-trip theorem; path geometry (from_bezpath elision + skrifa "
+                "to_path) has neither model nor theorem, only the implementation oracle."),
+    technique="Coq proof (induction over the RLE state machine and the readers, lia, exhaustive byte sweeps by vm_compute) over a hand-written Gallina model + vm_compute correspondence with write-fonts/read-fonts + implementation-only oracle incl. skrifa drawing",
+    modelled=["write-fonts/src/tables/glyf/simple.rs: compute_point_deltas/flag_and_delta, RepeatableFlag::iter_from_flags + write_into (debug_assert), SimpleGlyph::write_into (asserts, `cur as u16 - 1`, padding), FromObjRef contour splitting",
+              "write-fonts/src/tables/glyf/composite.rs: Component::compute_flag/write_into, Anchor/Transform write_into, CompositeGlyph::write_into (MORE_COMPONENTS, WE_HAVE_INSTRUCTIONS), From<ComponentFlags>; read-fonts Anchor/Transform::compute_flags",
+              "write-fonts/src/tables/glyf/glyf_loca_builder.rs: add_glyph (validate, write, raw_loca), build; write-fonts/src/tables/loca.rs: LocaFormat::new, Loca::write_into; TableWriter::pad_to_2byte_aligned",
+              "read-fonts generated_glyf.rs: Glyph::read, SimpleGlyph::read and getters, CompositeGlyph::read; read-fonts/src/tables/glyf.rs: resolve_coords_len, points_impl/PointIter (advance_flags, advance_points), ComponentIter, ComponentGlyphIdFlagsIter/count_and_instructions",
+              "read-fonts/src/tables/loca.rs: Loca::read, get_raw, get_glyf"],
+    not_covered=["composite_roundtrip: no Coq theorem (model + byte-exact correspondence on ~670 composites covering every anchor/transform form, and the implementation oracle)",
+                 "SimpleGlyph::read_points_fast (the reader skrifa uses): implementation oracle only (compared with points() on every accepted glyph)",
+                 "simple_glyphs_from_kurbo / InterpolatableContourBuilder (BezPath front end, implied on-curve elision) and skrifa path::to_path: implementation oracle only (random integer line/quad paths drawn unscaled on a FontBuilder font and compared segment by segment)",
+                 "flags_rle_shortest minimality among ALL flag encodings is not proved (only the exact length formula per run and the implementation-side comparison with an independently computed canonical length)",
+                 "contour-count assert (>= 32767 contours) and 65535/65536-point glyphs: implementation only (too large for shards)"],
+    assumptions=["Rust integer semantics of the overflow-checks + debug-assertions profile (i16 subtraction and `u16 - 1` trap; `as u16`/`as u8`/`as i8` truncate)",
+                 "glyf data < 4 GiB (raw_loca stores `pos as u32`)",
+                 "drawing oracle: hmtx lsb = glyph xMin (a consistent font); otherwise the scaler shifts outlines by xMin - lsb as FreeType does"],
 )
